@@ -25,11 +25,15 @@ CLAIMED = {
           "behaviours x limits x SMTP/LMTP) and correspondence with the server model.",
           "DESIGN.md 7 C02", "Lean 4 proof (reader) + monitors and differential correspondence (dr, conv probes)",
           "the resumption theorem on the wire model (C02_resume) is not yet proved; resumption is tied by the conv correspondence"),
- "C03": C("The ordering monitor (Spec/Order.lean: Mail/Rcpt/Data order, recipient limit, Reset/Logout discipline, TLS state seen by NewSession) "
-          "is evaluated on every recorded conversation of the real server and the traces are compared with the Lean server model; the "
-          "invariant proof (Proofs/ServerInv.lean) covers Close, reset, protocol errors and RCPT so far.",
-          "DESIGN.md 7 C03", CONV,
-          "the whole-loop theorem C03_order is work in progress: proved for the primitives and handleRcpt, not yet for every handler"),
+ "C03": C("Proved: order_accepts_every_connection / C03_order - for EVERY input octet stream in EVERY segmentation, EVERY backend script "
+          "(acceptances, refusals, errors, panics, early returns, SASL scripts, handshake outcomes) and EVERY configuration, the complete "
+          "backend-visible trace of a connection of the server model (greeting, command loop, all handlers incl. DATA, BDAT, AUTH, STARTTLS, "
+          "panic recovery, deferred Close) is accepted by the ordering monitor, and Mon.check3 - the judge applied to the implementation's "
+          "traces - is proved to be a projection of it (C03_order_visible: also on the trace as the harness records it). Implementation: that "
+          "judge on every recorded conversation of the real server (sweeps, walks, every cut point, TLS upgrades) and the traces compared "
+          "with the model's.",
+          "DESIGN.md 0.3 + 7 C03", "Lean 4 proof (whole-connection invariant of the server model) + the same monitor on implementation traces + differential correspondence (conv probe)",
+          "the model is hand written: its tie to conn.go is the conv correspondence; goroutine timing of chunked deliveries is covered by C04/C20"),
  "C04": C("Strict RFC 5321 reply recogniser + enhanced-code class rule + own-verdict rule (DATA and chunked) evaluated on every recorded "
           "conversation incl. forced delivery orders (sched probe); L3 theorem own_verdict_all_schedules proved for every schedule of the "
           "chunked-delivery model.",
@@ -46,9 +50,13 @@ CLAIMED = {
           "message was consumed; every cut offset of 6 conversations (DATA, BDAT, LMTP) replayed on the real server with propagating backends.",
           "DESIGN.md 7 C07", "Lean 4 proof (DATA reader) + every-cut-point correspondence (dr, conv probes)",
           "BDAT (pipe closed cleanly only after a LAST chunk copied in full) tied by the correspondence, not yet by a theorem"),
- "C08": C("Session-lifecycle monitor (one Logout per session, no callback after it, nothing after close) on every cut point of 6 conversations, "
-          "all server-initiated closes, sweeps and walks incl. TLS; closeConn/resetConn/protocolError proved to keep the ordering invariant.",
-          "DESIGN.md 7 C08", CONV, "whole-loop theorem work in progress (see C03)"),
+ "C08": C("Proved: C08_lifecycle / C08_lifecycle_visible / C08_ends_closed - on every connection of the server model (every input, every "
+          "point at which the input ends, every backend script and configuration) each session is logged out exactly once, nothing is called "
+          "on it afterwards, the connection is closed exactly once, nothing is written or called after that, and at the end nobody is logged "
+          "in; Mon.check8 - the judge applied to the implementation's traces - is a proved projection of the ordering monitor. Implementation: "
+          "that judge on every cut point of 6 conversations, all server-initiated closes, sweeps and walks incl. TLS; traces compared with the model's.",
+          "DESIGN.md 0.3 + 7 C08", "Lean 4 proof (whole-connection invariant of the server model) + the same monitor on implementation traces + differential correspondence (conv probe)",
+          "Server.Close/Shutdown racing with a connection (C20) is outside this model"),
  "C09": C("Proved on the server model: C09_insecure_unreachable (when AUTH is not allowed neither the backend nor a mechanism is ever reached, nothing but the refusal is written), C09_b64_roundtrip (the decoder is the exact inverse of the encoder on all octet strings), C09_empty_initial_response. AUTH reachability/at-most-once monitor on conversations over {plaintext, STARTTLS, implicit TLS} x AllowInsecureAuth x backend incl. mechanisms that fail with done=true; client half: Client.Auth against scripted peers, judged (challenges and responses cross unaltered, '*' only while the server waits) and compared with the Lean client model.",
           'DESIGN.md 0.3 + 7 C09', 'Lean 4 proof (server AUTH gate, base64) + trace monitors + differential correspondence (conv, cconv probes)',
           "at-most-once and erased-by-STARTTLS are decided by the Order monitor + correspondence, not yet by a whole-loop theorem; one known finding (client sends '*' after a final negative reply)"),
@@ -116,7 +124,7 @@ CLAIMED = {
 }
 # properties whose check audits at least one machine-checked theorem today (the others are claimed at the level of
 # their correspondence/monitor check until their theorems land)
-PROVED = {"C01", "C02", "C04", "C06", "C07", "C09", "C10", "C12", "C13", "C14", "C15", "C16", "C17", "C18", "C19", "C20"}
+PROVED = {"C01", "C02", "C03", "C04", "C06", "C07", "C08", "C09", "C10", "C12", "C13", "C14", "C15", "C16", "C17", "C18", "C19", "C20"}
 NA_REASON = "check not built yet (work in progress, see DESIGN.md section 10)"
 
 m = {"version": 1, "setup_cmd": "./setup.sh",
